@@ -86,12 +86,16 @@ def subseqBy {α β} (m : α → β → Bool) : List α → List β → Bool
   | _ :: _, [] => false
   | a :: as, b :: bs => if m a b then subseqBy m as bs else subseqBy m (a :: as) bs
 
-/-- nesting depth of a trace line (number of `|` in its gutter) and the marker after the gutter -/
+/-- nesting depth of a trace line and the marker in its gutter.  A line of depth `d` starts with a
+    space, `d` bars and the tick (`- ` at depth 0, `| ` deeper); on the first line of a branch the
+    tick's bar is replaced by `\\`, on the last line of a failed branch by `X`. -/
 def gutter (line : Str) : Nat × Option Char :=
   match line with
   | ' ' :: rest =>
     let bars := rest.takeWhile (· == '|')
-    (bars.length, (rest.drop bars.length).head?)
+    let mark := (rest.drop bars.length).head?
+    if mark == some '\\' || mark == some 'X' then (bars.length, mark)
+    else (bars.length - 1, mark)
   | _ => (0, none)
 
 def setAt (l : List (Option Str)) (i : Nat) (v : Option Str) : List (Option Str) :=
@@ -122,29 +126,33 @@ def targetsAtLastSpec (lines : List Str) (inner : CallInfo) : List Str :=
         | none => go rest tg1 found
   go lines [] []
 
-def checkC05 (evs : List Ev) (errText : Nat → Str) (rootError : Nat) (text : String) : Bool :=
+/-- the four clauses of the property, separately (for diagnosis); `checkC05` is their conjunction -/
+def clausesC05 (evs : List Ev) (errText : Nat → Str) (rootError : Nat) (text : String) : List Bool :=
   let calls := callsOf evs
   let sp := spine calls rootError
   let lines := splitLines text.toList
   let specLines := lines.filterMap (afterLabel "Spec".toList)
   match calls.head?, sp.getLast? with
   | some root, some inner =>
-    -- 1. begins with the root target
-    (match lines.head? with
-     | some l => (match afterLabel "Target".toList l with
-        | some shown => showsValue root.target root.tlen shown
-        | none => false)
-     | none => false) &&
-    -- 2. every spine spec, in order
-    subseqBy (fun (c : CallInfo) shown => showsValue c.spec c.slen shown) sp specLines &&
-    -- 3. the target the innermost failing spec received is the one in force at its line
-    (targetsAtLastSpec lines inner).any (fun t => showsValue inner.target inner.tlen t) &&
-    -- 4. every failed branch of a spine call, with the error that ended it
-    sp.all (fun c => (failedBranches calls c rootError).all (fun b =>
-      specLines.any (showsValue b.spec b.slen) &&
-      (match b.result with
-       | some e => lines.any (fun l => isSuffix (errText e) l)
-       | none => true)))
-  | _, _ => false
+    [ -- 1. begins with the root target
+      (match lines.head? with
+       | some l => (match afterLabel "Target".toList l with
+          | some shown => showsValue root.target root.tlen shown
+          | none => false)
+       | none => false),
+      -- 2. every spine spec, in order
+      subseqBy (fun (c : CallInfo) shown => showsValue c.spec c.slen shown) sp specLines,
+      -- 3. the target the innermost failing spec received is the one in force at its line
+      (targetsAtLastSpec lines inner).any (fun t => showsValue inner.target inner.tlen t),
+      -- 4. every failed branch of a spine call, with the error that ended it
+      sp.all (fun c => (failedBranches calls c rootError).all (fun b =>
+        specLines.any (showsValue b.spec b.slen) &&
+        (match b.result with
+         | some e => lines.any (fun l => isSuffix (errText e) l)
+         | none => true))) ]
+  | _, _ => [false]
+
+def checkC05 (evs : List Ev) (errText : Nat → Str) (rootError : Nat) (text : String) : Bool :=
+  (clausesC05 evs errText rootError text).all id
 
 end Glom.C05
